@@ -91,6 +91,21 @@ func (c *Conversation) lastMessage(msg MessagePlaintext, opaque ...interface{}) 
 	c.resend.later(msg, opaque...)
 }
 
+// lastEncryptedMessage remembers msg as the only message that may still be
+// retransmitted. Once a user message has gone out encrypted, everything sent
+// before it is forgotten - otherwise the whole history of the session would be
+// kept in memory, and resent after the next key exchange.
+// Messages without user content (heartbeats, TLV-only messages) are never
+// retransmitted, so they don't replace the last user message.
+func (c *Conversation) lastEncryptedMessage(msg MessagePlaintext) {
+	if c.resend.retransmitting || len(msg) == 0 {
+		return
+	}
+
+	c.resend.clear()
+	c.resend.later(msg)
+}
+
 func (c *Conversation) updateMayRetransmitTo(f retransmitFlag) {
 	c.resend.mayRetransmit = f
 }
